@@ -1,16 +1,22 @@
 #!/bin/sh
 # usage: tools/try_mutant.sh <dir with patch.diff [demo.py]> <property> [tier]
-# Applies the seeded change to /repo, runs the demonstration and the check, and reverts.
-D="$1"; P="$2"; T="${3:-quick}"
-cd /repo || exit 2
-if [ -n "$(git status --porcelain --untracked-files=no)" ]; then echo "repo not clean"; exit 2; fi
+# Runs the demonstration and the check against a scratch worktree of /repo with the seeded
+# change applied (VERIF_REPO points the checks at it; /repo itself is not touched, so
+# several of these can run concurrently).  Evidence/replays of the mutant run go to a
+# scratch directory.  The worktree is removed afterwards.
+D="$(cd "$1" && pwd)"; P="$2"; T="${3:-quick}"
+WT="$(mktemp -d /tmp/mut_XXXXXX)"; rmdir "$WT"
+git -C /repo worktree add -q --detach "$WT" HEAD || exit 2
+OUT="$(mktemp -d /tmp/mutout_XXXXXX)"
+cleanup() { git -C /repo worktree remove --force "$WT" 2>/dev/null; rm -rf "$WT"; }
+trap cleanup EXIT
 if [ -f "$D/demo.py" ]; then
-  PYTHONPATH=/repo/src timeout 300 /venv/bin/python "$D/demo.py" >/tmp/demo_orig.out 2>&1; echo "demo on original: rc=$? $(tail -1 /tmp/demo_orig.out | cut -c1-150)"
+  (cd "$WT" && PYTHONPATH="$WT/src" timeout 600 /venv/bin/python "$D/demo.py" >"$OUT/demo_orig.out" 2>&1; echo "demo on original: rc=$? $(tail -1 "$OUT/demo_orig.out" | cut -c1-150)")
 fi
-git apply "$D/patch.diff" || { echo "patch does not apply"; exit 2; }
+git -C "$WT" apply "$D/patch.diff" || { echo "patch does not apply"; exit 2; }
 if [ -f "$D/demo.py" ]; then
-  PYTHONPATH=/repo/src timeout 300 /venv/bin/python "$D/demo.py" >/tmp/demo_mut.out 2>&1; echo "demo on mutant:   rc=$? $(tail -1 /tmp/demo_mut.out | cut -c1-150)"
+  (cd "$WT" && PYTHONPATH="$WT/src" timeout 600 /venv/bin/python "$D/demo.py" >"$OUT/demo_mut.out" 2>&1; echo "demo on mutant:   rc=$? $(tail -1 "$OUT/demo_mut.out" | cut -c1-150)")
 fi
-cd /verif && ./check "$P" --tier "$T" > /tmp/check_mut.out 2>&1; RC=$?
-echo "check $P on mutant: rc=$RC"; grep -E "^(VIOLATION|KNOWN-FINDING|MACHINERY|OK)" /tmp/check_mut.out | cut -c1-260 | head -8
-git -C /repo checkout -- . ; git -C /repo status --porcelain --untracked-files=no
+cd /verif && VERIF_REPO="$WT" VERIF_EVIDENCE_DIR="$OUT/evidence" VERIF_REPLAYS_DIR="$OUT/replays" ./check "$P" --tier "$T" > "$OUT/check_mut.out" 2>&1; RC=$?
+echo "check $P on mutant: rc=$RC (output in $OUT)"; grep -E "^(VIOLATION|KNOWN-FINDING|MACHINERY|OK)" "$OUT/check_mut.out" | cut -c1-260 | head -8
+exit 0
